@@ -8,10 +8,11 @@ round (its own inserts/deletes and the replay of merged child tries); `t` = the 
 What is proved for every event list: the collector algebra (`collector_algebra`), `store_mono`, completeness of the
 save under the event discipline (`C04_complete_partial`), crash safety of every prefix of the save's write stream
 (`C04_crash`, `C04_old_roots`).  The event discipline (`Disc`: a replaced node is live; and `hcov`: the nodes of the
-final tree are in the live set computed from the events) is NOT proved for the events emitted by
-`insertE`/`deleteE`/merge; it is checked by the harness on the recorded Go event log of every generated history
-(`checkDiscipline` in go/harness/mptstore.go).  `C04_complete` is the closed form for a round of inserts/deletes on one trie:
-there the discipline is proved (Lemmas/EventDisc, EventKeys, MptRound) and only key injectivity (`KeyInjOn`) is assumed.
+final tree are in the live set computed from the events) is PROVED for every run of a trie - own inserts/deletes and the
+replay of merged, possibly nested, child tries (`trieRun_discipline`), hence for every history of the interpreter
+(`C04_complete_run`, `C04_complete_interp`); it is additionally checked by the harness on the recorded Go event log
+(`checkDiscipline`).  Chain over all rounds: `C04_all_roots`; reading a saved root back: `C04_reopen_reads`; either order of
+the two writes: `C04_crash_any_order`.  Assumed throughout: key injectivity on the references of the history (`KeyInjOn`).
 -/
 import Verif.Lemmas.MptStoreTrie
 import Verif.Lemmas.MptRound
@@ -21,6 +22,8 @@ import Verif.Lemmas.TrieRun
 import Verif.Lemmas.NotStuck
 import Verif.Lemmas.Interp
 import Verif.Lemmas.RefKeyInj
+import Verif.Lemmas.ResolvesBridge
+import Verif.Props.C14
 namespace Verif.Props.C04
 open Verif.Mpt Verif.MptStore Verif.MptStore.Collector
 
@@ -424,5 +427,86 @@ example (n : Nat) :
     · subst ha; subst hc; simp [Ref.key, key, le64] at hk
       exact absurd (congrArg List.getLast? hk) (by simp)
     · rw [← ha, ← hc]
+/-! ### every root ever saved; reading a saved root back; the order of the two writes of a save -/
+
+/-- **Every saved root resolves after every later save.**  `P i` is the persistent store after round `i`'s save
+    (`P (i+1)` = `P i` after the write stream of the block trie of round `i+1`), `T i` the tree saved by round `i`, round
+    `i+1` a `TrieRun` from `T i` (own operations and merged transactions at any versions).  Then after `i` rounds every
+    root saved so far resolves in the persistent store alone: `T j` in `P i` for all `j ≤ i`.  (Pruning is C05:
+    `C05_history_safe` takes these stores through prunes.)  Assumed: key injectivity on the references of the chain. -/
+theorem C04_all_roots (H : Bytes → Bytes) (U : Ref → Prop) (hU : KeyInjOn H U) (Vok : Nat → Nat → Prop) (T : Nat → Node)
+    (E : Nat → List Event) (b : Nat → Trie) (P : Nat → PStore)
+    (hfresh : ∀ i, (b i).cc.changes = [] ∧ (b i).cc.deletes = [])
+    (hrun : ∀ i, TrieRun H U (Vok (i + 1)) (T i) (E (i + 1)) (T (i + 1)))
+    (hP : ∀ i, P (i + 1) = (P i).applyAll (saveStream H ((b i).applyEvents H (E (i + 1)))))
+    (h0 : Resolves H (Map.get (P 0).nodes) (T 0) []) (hw0 : WF (T 0)) (hU0 : ∀ r ∈ refs (T 0) [], U r) :
+    ∀ i j, j ≤ i → Resolves H (Map.get (P i).nodes) (T j) [] := by
+  have hdisc : ∀ i, WF (T i) → (∀ r ∈ refs (T i) [], U r) →
+      Disc (Ref.key H) (fun x => x ∈ (refs (T i) []).map (Ref.key H)) (callsOf H (E (i + 1))) ∧ WF (T (i + 1)) ∧
+      (∀ r ∈ eventRefs (E (i + 1)), U r) ∧ (∀ r ∈ refs (T (i + 1)) [], U r) := by
+    intro i hw hu
+    obtain ⟨hd, _, hw', hE, hu'⟩ := trieRun_discipline H U hU (hrun i) hw hu (fun x => x ∈ (refs (T i) []).map (Ref.key H))
+      (fun r hr => List.mem_map.mpr ⟨r, hr, rfl⟩)
+      (by intro x hx; obtain ⟨r, hr, hk⟩ := List.mem_map.mp hx; exact ⟨r, hu r hr, hk⟩)
+    exact ⟨hd, hw', hE, hu'⟩
+  have hinv : ∀ i, WF (T i) ∧ ∀ r ∈ refs (T i) [], U r := by
+    intro i
+    induction i with
+    | zero => exact ⟨hw0, hU0⟩
+    | succ i ih => obtain ⟨_, hw', _, hu'⟩ := hdisc i ih.1 ih.2; exact ⟨hw', hu'⟩
+  intro i
+  induction i with
+  | zero => intro j hj; rw [Nat.le_zero.mp hj]; exact h0
+  | succ i ih =>
+    intro j hj
+    rw [hP i]
+    rcases Nat.lt_or_ge j (i + 1) with hlt | hge
+    · -- an older root: the save only adds nodes whose keys determine their encodings
+      apply C04_old_roots H (P i) _ (T j) (ih j (Nat.lt_succ_iff.mp hlt))
+      intro a c ha hc hk
+      obtain ⟨hd, _, hE, _⟩ := hdisc i (hinv i).1 (hinv i).2
+      obtain ⟨_, _, prov⟩ := collector_invs H _ (b i) (E (i + 1)) (hfresh i) hd
+      have hin : ∀ r, (r ∈ refs (T j) [] ∨ ∃ e ∈ ((b i).applyEvents H (E (i + 1))).cc.changes, e.2.new = r) → U r := by
+        intro r hr
+        rcases hr with hr | ⟨e, he, rfl⟩
+        · exact (hinv j).2 r hr
+        · exact hE _ (prov.changes e he).2.1
+      rw [hU a c (hin a ha) (hin c hc) hk]
+    · have hji : j = i + 1 := Nat.le_antisymm hj hge
+      rw [hji]
+      exact C04_complete_run H U (Vok (i + 1)) (P i) (T i) (T (i + 1)) (b i) (E (i + 1)) (hfresh i) (ih i (Nat.le_refl i))
+        (hinv i).1 (hinv i).2 (hrun i) hU
+
+/-- **A saved root reads back exactly the saved content.**  A tree that resolves in a store (`Resolves`, what the save
+    theorems establish) is, read from its root key by decoding the stored bytes (`buildP`, the model of opening a trie on
+    the store), the tree itself: every lookup over the decoded bytes answers what the tree holds.  Composition of the
+    store layer with `C14_reload` through `ref_encode_eq` (the store layer's bytes are the codec's encoding). -/
+theorem C04_reopen_reads (H : Bytes → Bytes) (hH : ∀ b, (H b).length = 32) (get : Bytes → Option Bytes) (t : Node)
+    (hw : WFn t) (h : Resolves H get t []) (n : Nat) (hn : Verif.Partial.depth (Verif.Partial.toP t) < n) (p : List Nib) :
+    Verif.Partial.lookupP (Verif.Partial.buildP get n (key H t [])) (p.map nibChar) = Verif.Partial.ofOpt (lookup t p) :=
+  ((Verif.Props.C14.C14_reload H hH get t [] hw (partial_resolves_of_resolves H get t [] h)).2 n hn).2 p
+
+/-- the two writes of a save in the order given by `recFirst` (`false`: node batch then dead-node record, the order the
+    harness uses; `true`: the record first, as the in-repo test caller does) -/
+def saveStreamOrd (H : Bytes → Bytes) (recFirst : Bool) (t : Trie) : List Write :=
+  if recFirst then (saveStream H t).reverse else saveStream H t
+
+/-- **The order of the two writes does not matter for the nodes**: for either order, after any prefix of the save's
+    writes every tree that resolved before still resolves, and after both writes the node store is the same. -/
+theorem C04_crash_any_order (H : Bytes → Bytes) (recFirst : Bool) (P0 : PStore) (b : Trie) (told : Node) (n : Nat)
+    (hold : Resolves H (Map.get P0.nodes) told [])
+    (hf : KeyFaithful H (fun r => r ∈ refs told [] ∨ ∃ e ∈ b.cc.changes, e.2.new = r)) :
+    Resolves H (Map.get (P0.applyAll ((saveStreamOrd H recFirst b).take n)).nodes) told [] ∧
+    (P0.applyAll (saveStreamOrd H recFirst b)).nodes = (P0.applyAll (saveStream H b)).nodes := by
+  cases recFirst with
+  | false => exact ⟨C04_crash H P0 b told n hold hf, rfl⟩
+  | true =>
+    refine ⟨?_, by simp [saveStreamOrd, saveStream, PStore.applyAll, PStore.apply]⟩
+    match n with
+    | 0 => simpa [PStore.applyAll] using hold
+    | 1 => simpa [saveStreamOrd, saveStream, PStore.applyAll, PStore.apply] using hold
+    | n + 2 =>
+      have h2 := C04_crash H P0 b told 2 hold hf
+      simpa [saveStreamOrd, saveStream, PStore.applyAll, PStore.apply] using h2
 
 end Verif.Props.C04
